@@ -1,12 +1,12 @@
 #!/bin/bash
 # usage: tools/mutate.sh <repo-relative-file> <perl-substitution> <check-id> [only-regexp] [tier]
-# Applies a one-off source mutation to /repo, runs the check, and restores the file.
+# Applies a one-off source mutation to /repo, runs the check, and restores the file (also when interrupted).
 set -u
 f=/repo/$1; expr=$2; id=$3; only=${4:-}; tier=${5:-quick}
-cp "$f" /tmp/mutate.bak.$$
+bak=/tmp/mutate.bak.$$
+cp "$f" $bak
+trap 'cp $bak "$f"; rm -f $bak' EXIT
 perl -0pi -e "$expr" "$f"
-if cmp -s "$f" /tmp/mutate.bak.$$; then echo "MUTATION DID NOT APPLY"; rm /tmp/mutate.bak.$$; exit 3; fi
+if cmp -s "$f" $bak; then echo "MUTATION DID NOT APPLY"; exit 3; fi
 (cd /repo && git diff --stat -- "$1" | tail -1)
 cd /verif && ./bin/gosym run --check checks/$id.json --tier $tier ${only:+--only "$only"} 2>&1 | grep -E "VIOLATION|KNOWN|INCONCLUSIVE|violated|exit=" | head -12
-cp /tmp/mutate.bak.$$ "$f"; rm /tmp/mutate.bak.$$
-(cd /repo && git status --short -- "$1")
